@@ -389,4 +389,24 @@ def decodeDataB (T : Tables) (fuel : Nat) (t : Template) (enforce : Enforce) (ns
         let subs := List.zipWith (fun d t => mkvalAll (d.reverse ++ t)) st.dones st.todos
         .ok (some { subsets := subs, invalid := st.invalid, early := st.early })
 
+/-- `bufr_create_datasubset(dts)` with the bit-map head (`createDatasubset`) -/
+def createDatasubsetB (T : Tables) (fuel : Nat) (t : Template) : Except XErr (Subset × Bool) :=
+  let r := if t.hasDelayed then expandSequence T fuel (OP_EXPAND_DELAY_REPL ||| OP_ZDRC_SKIP) t.gabarit
+           else .ok t.gabarit
+  match r with
+  | .error e => .error e
+  | .ok ns =>
+    let (ns', _, _, err) := applyTablesAllB T t.edition { enforce := .strict } {} [] ns
+    if afAbort ns' then .error .abort else
+    .ok ({ nodes := mkvalAll ns' }, err)
+
+/-- `bufr_expand_datasubset(dts, pos)` with the bit-map head (`expandDatasubset`) -/
+def expandDatasubsetB (T : Tables) (fuel : Nat) (t : Template) (s : Subset) : Except XErr (Subset × Bool) :=
+  match expandSequence T fuel (OP_EXPAND_DELAY_REPL ||| OP_ZDRC_SKIP) s.nodes with
+  | .error e => .error e
+  | .ok ns =>
+    let (ns', _, _, err) := applyTablesAllB T t.edition { enforce := .strict } {} [] ns
+    if afAbort ns' then .error .abort else
+    .ok ({ nodes := mkvalAll ns' }, err)
+
 end Bufr
